@@ -52,6 +52,7 @@ static std::vector<Script> scripts(int threads) {
         // the worker tree changes shape when the thread count crosses 6 (helpers get helpers of their own): slots are replaced, not only appended
         {"S16-threads-8-to-6", {H1, "setoption name Threads value 8", W1, "go depth 1", "@await bestmove", "setoption name Threads value 6", PW, "go depth 1", "@await bestmove", "quit"}},
         {"S17-threads-2-to-7", {H1, "setoption name Threads value 2", PW, "go depth 1", "@await bestmove", "setoption name Threads value 7", PB, "go depth 2", "@await bestmove", "quit"}},
+        {"S18-ponder-movetime-ponderhit", {H1, th, PW, "go ponder movetime 60", "ponderhit", "@await bestmove", "quit"}},
         {"S13-stop-after-finished", {H1, th, W1, "go depth 1", "@await bestmove", "stop", "isready", "@await readyok", PB, "go depth 1", "@await bestmove", "quit"}},
     };
 }
